@@ -495,18 +495,52 @@ func runBatchFree(t *testing.T, rc *RunCtx, prop string) {
 			}
 			ops[q] = o
 		}
-		var wg sync.WaitGroup
-		begin := make(chan struct{})
-		for q := range ops {
-			wg.Add(1)
-			go func(q int) {
-				defer wg.Done()
-				<-begin
-				res[q] = ops[q].Exec(inst)
-			}(q)
+		volley := func() {
+			var wg sync.WaitGroup
+			begin := make(chan struct{})
+			for q := range ops {
+				wg.Add(1)
+				go func(q int) {
+					defer wg.Done()
+					<-begin
+					res[q] = ops[q].Exec(inst)
+				}(q)
+			}
+			close(begin)
+			wg.Wait()
 		}
-		close(begin)
-		wg.Wait()
+		volley()
+		// C01: the same validators are then asked, again all at once, for a different attestation with the same target
+		// (whatever the parallel batches did to each other's records, none of these may be signed).
+		for pass := 0; pass < 2; pass++ {
+			if pass == 1 {
+				if prop != "C01" {
+					break
+				}
+				for q := range ops {
+					o := &Op{Kind: "atts", Client: "client1"}
+					for _, e0 := range ops[q].Entries {
+						uniq++
+						e := AttEntry(e0.Acct, e0.Src, e0.Tgt, uniq)
+						e.ByKey = e0.ByKey
+						o.Entries = append(o.Entries, e)
+					}
+					ops[q] = o
+				}
+				res = make([]*OpResult, m)
+				volley()
+				rc.Stats.Inc("free_running_conflicting_rounds", 1)
+			}
+			judgeBatchFree(rc, prop, pop, ledger, ops, res, r)
+		}
+		rc.Stats.Inc("free_running_batch_rounds", 1)
+	}
+	rc.Stats.Seen("cases", fmt.Sprintf("batchfree/%d/%d", rounds, rc.Seed))
+	rc.Sample = map[string]any{"layer": "free-running parallel batches", "rounds": rounds}
+}
+
+func judgeBatchFree(rc *RunCtx, prop string, pop *Population, ledger *Ledger, ops []*Op, res []*OpResult, r int) {
+	{
 		for q, o := range ops {
 			if prop == "C08" {
 				Monitor(rc, ledger, pop, o, res[q], r, false)
@@ -534,10 +568,7 @@ func runBatchFree(t *testing.T, rc *RunCtx, prop string) {
 				rc.Stats.Inc("signatures_released", 1)
 			}
 		}
-		rc.Stats.Inc("free_running_batch_rounds", 1)
 	}
-	rc.Stats.Seen("cases", fmt.Sprintf("batchfree/%d/%d", rounds, rc.Seed))
-	rc.Sample = map[string]any{"layer": "free-running parallel batches", "rounds": rounds}
 }
 
 func init() {
